@@ -96,20 +96,20 @@ macro_rules! c18_faults {
     };
 }
 
-//@ props=C18 tier=quick timeout=1200 mem=12 model=0 stub_fmt=0 name=c18_faults_2links
+//@ props=C18 tier=quick timeout=1200 mem=4 model=0 stub_fmt=0 name=c18_faults_2links
 //@ functions=LinkFormatWrite::link, LinkFormatWrite::finish, LinkFormatWrite::set_add_newlines, LinkAttributeWrite::attr, LinkAttributeWrite::attr_quoted, LinkAttributeWrite::attr_u32, LinkAttributeWrite::finish, internal_attr_key_eq
 //@ bounds=document: 2 links, attr / attr_quoted (one character needing an escape) / attr_u32(any u8) / attr that falls back to quoting; fault: every index of the write calls issued (symbolic) x {once, persistent} x newline option on/off
 //@ what=finish() (document and last link) is Err iff a call failed; no call reaches the sink after the first failure; accepted bytes are a prefix of the fault-free output; a sink that never fails => Ok and complete output
 //@ outside=other document shapes (the call sequence is concrete); the real core::fmt integer formatting runs unstubbed
 c18_faults!(c18_faults_2links, false);
 
-//@ props=C18 tier=thorough timeout=2400 mem=16 model=0 stub_fmt=0 name=c18_faults_3links
+//@ props=C18 tier=thorough timeout=2400 mem=13 model=0 stub_fmt=0 name=c18_faults_3links
 //@ functions=LinkFormatWrite::link, LinkFormatWrite::finish, LinkAttributeWrite::attr, LinkAttributeWrite::attr_quoted, LinkAttributeWrite::attr_u32, LinkAttributeWrite::attr_u16
 //@ bounds=as c18_faults_2links with a third link written through attr_u16 (two separators, so a failure inside the second separator is followed by further links)
 //@ what=as c18_faults_2links
 c18_faults!(c18_faults_3links, true);
 
-//@ props=C18 tier=quick timeout=900 mem=12 model=0 stub_fmt=0
+//@ props=C18 tier=quick timeout=900 mem=4 model=0 stub_fmt=0
 //@ functions=LinkFormatWrite::link (separator and newline), LinkFormatWrite::finish
 //@ bounds=3 bare links; fault at every write call (symbolic) x {once, persistent}; newline option on/off
 //@ what=focus on the ',' + "\n\r" separator: a failure of either part is reported by finish() and nothing follows it
@@ -167,7 +167,7 @@ fn inside(s: &str, base: usize, l: usize) -> bool {
     s.is_empty() || (a >= base && a + s.len() <= base + l)
 }
 
-//@ props=C17 tier=quick timeout=2400 mem=24 model=0 stub_fmt=0
+//@ props=C17 tier=quick timeout=2400 mem=10 model=0 stub_fmt=0
 //@ functions=LinkFormatParser::next, str::trim_end_matches, str::trim_matches
 //@ bounds=one step from every remaining input that is an ASCII string of 0..4 bytes
 //@ what=no panic; the link and the attribute text are substrings of the input, in left-to-right order; what remains is a suffix of the input, strictly shorter when an item was produced and empty after an error or at the end - by induction over the suffix: termination, ordering, nothing after the first error
@@ -206,7 +206,7 @@ fn c17_link_step() {
     }
 }
 
-//@ props=C17 tier=quick timeout=2400 mem=24 model=0 stub_fmt=0
+//@ props=C17 tier=quick timeout=2400 mem=14 model=0 stub_fmt=0
 //@ functions=LinkAttributeParser::next, Unquote::new, Unquote::into_raw_str, str::find, str::split_at, str::trim
 //@ bounds=one step from every remaining attribute text that is an ASCII string of 0..4 bytes
 //@ what=no panic; key and raw value are substrings of the input, key before value; what remains is a suffix, strictly shorter when an item was produced
@@ -282,13 +282,13 @@ fn $name() {
 }
 c17_cow!(c17_cow, 3);
 
-//@ props=C17 tier=witness timeout=2400 mem=30 model=0 stub_fmt=0 name=c17_cow_2
+//@ props=C17 tier=witness timeout=2400 mem=24 model=0 stub_fmt=0 name=c17_cow_2
 //@ functions=Unquote::to_cow
 //@ bounds=ASCII strings of 0..2 bytes; only used to extract concrete counterexamples
 //@ what=as c17_cow
 c17_cow!(c17_cow_2, 2);
 
-//@ props=C17 tier=quick timeout=1800 mem=16 model=0 stub_fmt=0
+//@ props=C17 tier=quick timeout=1800 mem=4 model=0 stub_fmt=0
 //@ functions=Unquote::next
 //@ bounds=one step from every state (not started / unquoted / quoted) and every remaining ASCII string of 0..4 bytes
 //@ what=no panic; the remaining characters are a suffix of the input or empty, strictly shorter after a yielded character; once None is returned it stays None (fused)
